@@ -592,12 +592,37 @@ fn lying_server(rep: &Report, seed: u64, tier: Tier) {
         };
         // Which request lies (0,1 = header requests, >=2 chunk data) and how.
         let target = rng.below(5);
-        let how = rng.below(5);
+        let how = rng.below(6);
         let lie_seed = rng.next_u64();
-        let desc = format!("request#{} {}", target, ["wrong bytes", "error page 404 of requested length", "error page 500 of requested length", "short body", "one byte flipped"][how as usize]);
+        let desc = format!("request#{} {}", target, ["wrong bytes", "error page 404 of requested length", "error page 500 of requested length", "short body", "one byte flipped", "this and every later request answered from ANOTHER valid archive (--verify-header given)"][how as usize]);
+        // how == 5: a stateful server (or a file replaced under the same URL) switches to a
+        // different, perfectly valid archive in mid-run; the user pinned the genuine header.
+        let other: Option<Arc<Vec<u8>>> = if how == 5 {
+            let mut s2 = spec.clone();
+            s2.src_seed = spec.src_seed.wrapping_add(0x9e37);
+            let d2 = dir.join("other");
+            let _ = std::fs::create_dir_all(&d2);
+            s2.build(&d2).ok().map(|a| Arc::new(a.bytes))
+        } else {
+            None
+        };
+        if how == 5 && other.is_none() {
+            scn::cleanup(&dir, false);
+            return (None, String::new());
+        }
+        let other2 = other.clone();
         let server = Server::start(
             Arc::new(arch.bytes.clone()),
             Arc::new(move |req, f| {
+                if how == 5 {
+                    if req.n < target {
+                        return Action::Full;
+                    }
+                    let o = other2.as_ref().unwrap();
+                    let (a, b) = req.range.unwrap_or((0, 0));
+                    let (a, b) = ((a as usize).min(o.len()), ((b + 1) as usize).min(o.len()));
+                    return Action::Custom { status: 206, declared_len: None, body: o[a..b.max(a)].to_vec() };
+                }
                 if req.n != target {
                     return Action::Full;
                 }
@@ -630,7 +655,14 @@ fn lying_server(rep: &Report, seed: u64, tier: Tier) {
             }),
         );
         let out = dir.join("o.bin");
-        let cs = CloneSpec { archive: server.url(), output: out.clone(), verify_output: i % 4 == 0, buffered: [None, Some(1), Some(2)][(i / 4) % 3], ..Default::default() };
+        let cs = CloneSpec {
+            archive: server.url(),
+            output: out.clone(),
+            verify_output: i % 4 == 0,
+            buffered: [None, Some(1), Some(2)][(i / 4) % 3],
+            verify_header: if how == 5 { Some(crate::util::hex(&arch.model.parsed.header_checksum)) } else { None },
+            ..Default::default()
+        };
         let mut run = Run::new(&dir, "clone", scn::clone_args(&cs));
         run.use_shim = false;
         let o = proc::run(&run);
